@@ -187,6 +187,21 @@ def run(ck, F):
                     got.append(a[2][1])
                 else:
                     ok_table = False
+            # the collection is built afresh by the call: one kept in static (or thread-local) storage carries the elements of an
+            # earlier decomposition into a later one (the empty set would answer with what the previous call left)
+            def static_part(t):
+                if isinstance(t, tuple):
+                    if t[:1] == ('global',) and not t[1].endswith('::' + tname):
+                        return t[1]
+                    for y in t:
+                        r_ = static_part(y)
+                        if r_:
+                            return r_
+                return None
+            leak = static_part(v) or next((static_part(x[2]) for x in pushes if static_part(x[2])), None)
+            if leak:
+                bad.append(f'element {e:#x}: the result is built in / copied from `{contracts.short(leak)}`, storage that outlives the call')
+                continue
             want = [i for i in range(n) if e >> i & 1]
             same_vec = all(x[2] == pushes[0][2] for x in pushes) and (not pushes or mentions(v, pushes[0][2]) or v == pushes[0][2])
             if got != want or not ok_table or not same_vec:
@@ -296,6 +311,8 @@ def run(ck, F):
     # ---------------------------------------------------------------- set operations
     R5 = ck.rule('C10.set-operations', 'operator|, &, ^ apply the same-named bit operation to the representations of their two '
                  'operands; implies(a, b) holds exactly when b is a subset of a (E1 on single bits)', floor=6)
+    R5o = ck.rule('C10.operands-untouched', 'the binary operations |, &, ^ leave their operands as they were: both are taken by value (or by '
+                  'reference to const) and nothing is stored into them -- a & b is the intersection, and afterwards a is still a', floor=6)
     ops = {'operator|': '|', 'operator&': '&', 'operator^': '^'}
     seen = 0
     for f in sorted(F.fn.values(), key=lambda f: f['id']):
@@ -310,6 +327,17 @@ def run(ck, F):
                 good = v[0] == 'op' and v[1] == ops[f['name']] and {strip(v[2]), strip(v[3])} == {('param', 0), ('param', 1)}
             ck.check(R5, f['name'] + '<' + contracts.short(f['targs'][0]) + '>', good,
                      f'{f["id"]} evaluates to `{got}`', loc=f['loc'], fn=f['id'])
+            # a binary set operation reads its operands: neither is taken by non-const reference, and evaluating it stores nothing
+            # into the caller's objects (x & y must leave x as it was)
+            byref = [p_['name'] or str(i_) for i_, p_ in enumerate(f['params'])
+                     if p_['t'].rstrip().endswith('&') and not p_['t'].lstrip().startswith('const ')]
+            wrote = sorted({contracts.render(k_, outs[0][0], {}) for k_, v_ in outs[0][0].symstore.items()
+                            if isinstance(k_, tuple) and k_[:1] == ('param',) and v_ != k_} |
+                           {contracts.render(e_[1], outs[0][0], {}) for e_ in outs[0][0].effects if e_[0] == 'write' and isinstance(e_[1], tuple)
+                            and e_[1][:1] == ('param',)}) if outs else []
+            ck.check(R5o, f['name'] + '<' + contracts.short(f['targs'][0]) + '>', not byref and not wrote,
+                     f'{f["id"]} takes {byref} by non-const reference' + (f' and stores into {wrote}' if wrote else '') +
+                     ': the operand of a binary set operation is overwritten with the result', loc=f['loc'], fn=f['id'])
         if f['q'].startswith('ipr::implies<') and (f.get('targs') or [''])[0] in ('ipr::Specifiers', 'ipr::Qualifiers'):
             seen += 1
             outs = S.run(f['id'])
